@@ -108,7 +108,94 @@ pub fn judge(kind: &str, query_at: u64, res: &RunResult) -> (Vec<(String, String
     (v, profile)
 }
 
+// ---------------------------------------------------------------------------------------------
+// "two unanswered queries while not good": the queries of searches count like any other.
+
+fn x_addr() -> SocketAddr {
+    "10.0.10.77:6881".parse().unwrap()
+}
+fn x_id(h: &[u8; 20]) -> [u8; 20] {
+    // close to the searched hashes: asked in the first round after it was named
+    let mut b = *h;
+    b[19] ^= 0x5a;
+    b
+}
+
+/// One answering contact G names the silent node X (known by name only, never good) in its get_peers
+/// answers; `searches` searches for the same info-hash are requested `gap_ms` apart.
+pub fn build_two_searches(searches: usize, gap_ms: u64, rng_seed: u64) -> (Scenario, Vec<Box<dyn Peer>>) {
+    let mut sc = Scenario::new("search-queries-count-against-silent-node");
+    sc.rng_seed = rng_seed;
+    let h = [0x5eu8; 20];
+    let universe = Arc::new(vec![(c_id(), c_addr())]);
+    let mut g = Responder::new(c_addr(), c_id(), universe.clone());
+    g.node_list = crate::sim::peers::NodeList::Fixed(vec![(x_id(&h), x_addr())]);
+    g.find_node_list = Some(crate::sim::peers::NodeList::Closest8);
+    let peers: Vec<Box<dyn Peer>> = vec![Box::new(g), Box::new(crate::sim::peers::Sink { addr: x_addr(), received: vec![] })];
+    sc.nodes.push(NodeSpec { addr: n_addr(), id: Some(InfoHash::from(n_id())), read_only: true, announce_port: None, contacts: vec![c_addr()], routers: vec![], start_ms: 0 });
+    let t0 = 10_300u64;
+    for k in 0..searches {
+        sc.actions.push((When::At(t0 + k as u64 * gap_ms), Action::Search { node: 0, info_hash: InfoHash::from(h), announce: false, tag: format!("s{k}") }));
+    }
+    for (k, dt) in [1_700u64, 2_500, 4_000].iter().enumerate() {
+        sc.actions.push((When::At(t0 + (searches as u64 - 1) * gap_ms + dt), Action::LoadContacts { node: 0, tag: format!("after{k}") }));
+    }
+    sc.horizon_ms = t0 + searches as u64 * gap_ms + 6_000;
+    sc.link_latency = Arc::new(|_, _| 20);
+    (sc, peers)
+}
+
+pub fn judge_two_searches(res: &RunResult) -> (Vec<(String, String)>, usize) {
+    let mut v = vec![];
+    // what happens to X, in time order: mentions (an accepted answer naming it re-admits it if it was given up)
+    // and queries sent to it (each one counts while it is not good); a mention precedes the query it causes
+    let mut events: Vec<(u64, u8)> = vec![];
+    for d in &res.wire {
+        let p = sim::krpc::parse(&d.bytes);
+        if d.src == n_addr() && d.dst == x_addr() && p.y == 'q' {
+            events.push((d.sent_ms, 1));
+        }
+        if d.dst == n_addr() && p.y == 'r' && p.nodes.iter().any(|(_, a)| *a == x_addr()) {
+            for t in &d.delivered_ms {
+                events.push((*t, 0));
+            }
+        }
+    }
+    events.sort();
+    let sent = events.iter().filter(|e| e.1 == 1).count();
+    for e in &res.api {
+        if let ApiKind::Contacts { good, questionable } = &e.kind {
+            let mut unanswered = 0u32;
+            for (t, kind) in events.iter().filter(|(t, _)| *t < e.t_ms) {
+                let _ = t;
+                if *kind == 0 {
+                    if unanswered >= 2 {
+                        unanswered = 0;
+                    }
+                } else {
+                    unanswered += 1;
+                }
+            }
+            if unanswered >= 2 && (good.contains(&x_addr()) || questionable.contains(&x_addr())) {
+                v.push(("silent-hearsay-node-still-reported-after-two-unanswered-queries".to_string(), format!("{} has left {} consecutive queries unanswered since it was last named to the node (events (ms, 0 = named / 1 = queried): {:?}), it never answered anything, and load_contacts at {} ms still lists it", x_addr(), unanswered, events, e.t_ms)));
+                break;
+            }
+        }
+    }
+    (v, sent)
+}
+
 pub fn replay(v: &Value) -> i32 {
+    if let Some(n) = v["two_searches"].as_u64() {
+        let (sc, peers) = build_two_searches(n as usize, v["gap_ms"].as_u64().unwrap_or(0), v["rng_seed"].as_u64().unwrap_or(1));
+        let res = sim::run(&sc, peers, &mut sim::DefaultChooser);
+        let (viol, sent) = judge_two_searches(&res);
+        println!("{sent} queries sent to the silent node");
+        for (s, w) in &viol {
+            println!("VIOLATION {s}: {w}");
+        }
+        return if viol.is_empty() { 0 } else { 1 };
+    }
     let kind = v["kind"].as_str().unwrap_or("ping").to_string();
     let at = v["query_at"].as_u64().unwrap_or(905_000);
     let (sc, peers) = build(&kind, at, v["rng_seed"].as_u64().unwrap_or(1));
@@ -155,6 +242,26 @@ pub fn run(tier: Tier, rep: &mut Report) {
             rep.violation("handler query-kinds-classified-differently", format!("at {t} ms the four query kinds lead to different classifications: {:?}", ps), json!({"engine":"E1","check":"C10","part":"binding","kind":"ping","query_at":t,"rng_seed":seed}));
         }
     }
+    // queries of searches count against a silent node like refresh pings do
+    let mut two = 0u64;
+    for n in [2usize, 3] {
+        for gap in [0u64, 40, 700, 5_000] {
+            if n == 3 && gap == 0 {
+                // three answers naming X and three queries to it in one millisecond: their order is not observable
+                continue;
+            }
+            let (sc, peers) = build_two_searches(n, gap, seed);
+            let res = sim::run(&sc, peers, &mut sim::DefaultChooser);
+            let (viol, sent) = judge_two_searches(&res);
+            rep.add("e1_wire_events", res.wire.len() as u64);
+            rep.add("e1_queries_to_the_silent_hearsay_node", sent as u64);
+            two += 1;
+            for (sig, what) in viol {
+                rep.violation(format!("handler {sig}"), what, json!({"engine":"E1","check":"C10","part":"binding","two_searches":n,"gap_ms":gap,"rng_seed":seed}));
+            }
+        }
+    }
+    rep.set("e1_two_search_runs", two);
     rep.set("e1_binding_runs", work.len() as u64);
     rep.set("e1_binding_runs_with_contact_listed_when_it_queries", premise);
     rep.set("e1_binding_profiles", json!(profiles));
